@@ -1,0 +1,61 @@
+//! Verification hooks (only compiled with `--cfg fuzzing`).
+//!
+//! Read-only windows onto crate-private functions, used by the
+//! external verification harness. Nothing here changes behaviour.
+
+use crate::line_ending::NonEmptyLines;
+use crate::LineEnding;
+use std::cell::RefCell;
+
+/// The crate-private `NonEmptyLines` iterator, collected.
+pub fn non_empty_lines(text: &str) -> Vec<(&str, Option<LineEnding>)> {
+    NonEmptyLines(text).collect()
+}
+
+/// The crate-private `strip_ansi_escape_sequences`.
+#[cfg(feature = "unicode-linebreak")]
+pub fn strip_ansi(text: &str) -> String {
+    crate::word_separators::verif_strip_ansi(text)
+}
+
+/// The crate-private `ch_width`.
+pub fn ch_width(ch: char) -> usize {
+    crate::core::verif_ch_width(ch)
+}
+
+/// One recorded call of `smawk::online_column_minima` from
+/// `wrap_optimal_fit`: the fragment triples (width, whitespace
+/// width, penalty width), the line widths, and the returned
+/// `(row, cost)` vector.
+#[derive(Debug, Clone, PartialEq)]
+pub struct MinimaRecord {
+    /// `(width, whitespace_width, penalty_width)` of every fragment.
+    pub fragments: Vec<(f64, f64, f64)>,
+    /// The `line_widths` argument.
+    pub line_widths: Vec<f64>,
+    /// What `smawk::online_column_minima` returned.
+    pub minima: Vec<(usize, f64)>,
+}
+
+thread_local! {
+    static MINIMA_LOG: RefCell<Option<Vec<MinimaRecord>>> = const { RefCell::new(None) };
+}
+
+/// Start recording (clears earlier records).
+pub fn minima_log_start() {
+    MINIMA_LOG.with(|log| *log.borrow_mut() = Some(Vec::new()));
+}
+
+/// Stop recording and return the records.
+pub fn minima_log_take() -> Vec<MinimaRecord> {
+    MINIMA_LOG.with(|log| log.borrow_mut().take().unwrap_or_default())
+}
+
+#[cfg(feature = "smawk")]
+pub(crate) fn minima_log_push(record: impl FnOnce() -> MinimaRecord) {
+    MINIMA_LOG.with(|log| {
+        if let Some(records) = log.borrow_mut().as_mut() {
+            records.push(record());
+        }
+    });
+}
